@@ -17,17 +17,30 @@
 (*       the call returned; class: "record" (accept-line, accept-and-hold, *)
 (*       completed multi-line), "replay" (operate-and-get-next,            *)
 (*       accept-and-infer-next-history), "other"; before/after: sources    *)
+(*  src(how, name)   the user made another source the active one: how =    *)
+(*       "next" / "prev" (history-source-next / -prev), "again" (a history *)
+(*       completion asked for again while one is shown: it goes on in the  *)
+(*       next source or stays), "sync" (start of a call); name = what the  *)
+(*       library says the active source is (History.Name)                  *)
+(*  api(op, n, name, sources)  the application changed the bound sources   *)
+(*       between two calls: op = "add" / "del" / "delall"                  *)
+(* Which source is the active one follows HistSourcesOps (the cycling      *)
+(* commands are documented: next / previous in binding order, round the    *)
+(* list); the library's own answer must agree.  After the application      *)
+(* changed the list the library's answer is taken (the documentation does  *)
+(* not say which source is active then).                                   *)
 (* Ghost state: pos (position in the active source, 0 = line being typed,  *)
 (* -1 = not tracked), typed, edited (absolute entry index -> edited form). *)
 (***************************************************************************)
-EXTENDS Integers, Sequences, FiniteSets, TLC, Json, TLCExt
+EXTENDS Integers, Sequences, FiniteSets, TLC, Json, TLCExt, HistSourcesOps
 
-CONSTANT Active      \* name of the active source (the one navigation commands use)
-VARIABLES l, srcs, maxe, failing, pos, typed, tcur, edited, loose
+CONSTANT DefaultName \* key under which the harness reports the in-memory source of a Shell nothing was bound to
+VARIABLES l, srcs, maxe, failing, pos, typed, tcur, edited, loose, names, spos
+\* names / spos: the bound sources in binding order and the 0-based index of the active one
 \* failing: names of the bound sources whose Write fails (read-only file, full disk): they record nothing, the others must
 \* loose: buffers the user left behind on a history line whose position was not tracked (possible edited forms)
 \* tcur: the cursor in the typed text when the user left it (its prefix is what a prefix search looks for)
-tvars == <<l, srcs, maxe, failing, pos, typed, tcur, edited, loose>>
+tvars == <<l, srcs, maxe, failing, pos, typed, tcur, edited, loose, names, spos>>
 TraceLog == ndJsonDeserialize("trace.ndjson")
 Ev == TraceLog[l]
 Is(e) == l <= Len(TraceLog) /\ Ev.ev = e /\ l' = l + 1
@@ -41,16 +54,47 @@ Trim(s) == RTrim(LTrim(s))
 IsPrefix(a, b) == Len(a) <= Len(b) /\ SubSeq(b, 1, Len(a)) = a
 IsSubstr(a, b) == \E i \in 0..(Len(b) - Len(a)) : SubSeq(b, i + 1, i + Len(a)) = a
 
-Entries == srcs[Active]
+Active == NameAt(names, spos)      \* the source navigation commands use
+Entries == IF Active \in DOMAIN srcs THEN srcs[Active] ELSE <<>>
 N == Len(Entries)
 \* what position k (1 = most recent) shows: the edited form if the user changed that entry, else the stored entry
 Shown(k) == LET i == N - k + 1 IN IF i \in DOMAIN edited THEN edited[i] ELSE Entries[i]
 AnyShown == { Entries[i] : i \in 1..N } \cup { edited[i] : i \in DOMAIN edited }
 
-TInit == l = 1 /\ srcs = << >> /\ maxe = -1 /\ failing = {} /\ pos = 0 /\ typed = <<>> /\ tcur = 0 /\ edited = << >> /\ loose = {}
+TInit == /\ l = 1 /\ srcs = << >> /\ maxe = -1 /\ failing = {} /\ pos = 0 /\ typed = <<>> /\ tcur = 0 /\ edited = << >> /\ loose = {}
+         /\ names = <<>> /\ spos = 0
 TCase == /\ Is("case") /\ srcs' = Ev.sources /\ maxe' = Ev.maxentries /\ failing' = { Ev.failing[i] : i \in 1..Len(Ev.failing) }
          /\ pos' = 0 /\ typed' = <<>> /\ tcur' = 0 /\ edited' = << >> /\ loose' = {}
-TSession == /\ Is("session") /\ pos' = 0 /\ typed' = Ev.start /\ tcur' = Len(Ev.start) /\ UNCHANGED <<srcs, maxe, failing, edited, loose>>
+         /\ names' = Ev.names /\ spos' = 0
+TSession == /\ Is("session") /\ pos' = 0 /\ typed' = Ev.start /\ tcur' = Len(Ev.start) /\ UNCHANGED <<srcs, maxe, failing, edited, loose, names, spos>>
+
+\* another source becomes the active one: positions and edited forms belonged to the old one.  On the typed line the user
+\* stays on the typed line (the next walk shows the newest entry of the new source); elsewhere the position is no longer tracked
+Switched(p2) ==
+  IF p2 = spos THEN UNCHANGED <<pos, edited, loose>>
+  ELSE /\ pos' = IF pos = 0 THEN 0 ELSE -1
+       /\ edited' = << >>
+       /\ loose' = loose \cup { edited[i] : i \in DOMAIN edited }
+TSrc ==
+  /\ Is("src")
+  /\ \E p2 \in 0..Len(names) :
+       /\ CASE Ev.how = "next"  -> p2 = CycledIndex(Len(names), spos, TRUE)
+            [] Ev.how = "prev"  -> p2 = CycledIndex(Len(names), spos, FALSE)
+            [] Ev.how = "again" -> p2 \in {spos, CycledIndex(Len(names), spos, TRUE)}
+            [] OTHER            -> p2 = spos
+       /\ Ev.name = NameAt(names, p2)            \* the library agrees about which source is in use
+       /\ spos' = p2
+       /\ Switched(p2)
+  /\ UNCHANGED <<srcs, maxe, failing, typed, tcur, names>>
+TApi ==
+  /\ Is("api")
+  /\ names' = CASE Ev.op = "add" -> AddedName(names, Ev.n, DefaultName)
+                [] Ev.op = "del" -> RemoveFirstName(names, Ev.n)
+                [] OTHER -> <<>>
+  /\ srcs' = Ev.sources
+  /\ spos' = IndexOfName(names', Ev.name)
+  /\ pos' = 0 /\ edited' = << >> /\ loose' = loose \cup { edited[i] : i \in DOMAIN edited }
+  /\ UNCHANGED <<maxe, failing, typed, tcur>>
 
 \* remember what the user leaves behind when a navigation command moves away: <<typed, edited, loose>>
 Leave(pre) == IF pos = 0 THEN <<pre, edited, loose>>
@@ -73,7 +117,10 @@ TNav ==
          \* the text a prefix / substring search looks for: the text before the cursor, in the line shown or in the typed line
          tpre == IF tc >= 0 /\ tc < Len(ty) THEN SubSeq(ty, 1, tc) ELSE ty
          ShownE(k) == LET i == N - k + 1 IN IF i \in DOMAIN ed THEN ed[i] ELSE Entries[i]
-         AnyE == { Entries[i] : i \in 1..N } \cup { ed[i] : i \in DOMAIN ed } \cup lo
+         \* an incremental search that was asked for again went through several sources: what an earlier source's search
+         \* put in the buffer stays when the next source has no match (Ev.allsrc: the command opens / closes such a search)
+         AllE == UNION { { srcs[n][i] : i \in 1..Len(srcs[n]) } : n \in DOMAIN srcs }
+         AnyE == { Entries[i] : i \in 1..N } \cup { ed[i] : i \in DOMAIN ed } \cup lo \cup (IF Ev.allsrc THEN AllE ELSE {})
      IN
      IF Ev.kind = "infer"
      THEN \* infer-next-history: the entry that follows a match of the buffer replaces the buffer WHERE THE USER IS (the
@@ -94,7 +141,7 @@ TNav ==
              \/ (p2 > 0 /\ Ev.post = Entries[N - p2 + 1])
              \/ Ev.post \in lo          \* (also at p2 = 0: the typed text may have changed while the position was not tracked)
           /\ pos' = p2 /\ typed' = (IF p2 = 0 THEN Ev.post ELSE ty) /\ tcur' = tc /\ edited' = ed /\ loose' = lo
-     ELSE IF N = 0
+     ELSE IF N = 0 /\ ~(Ev.allsrc /\ Ev.post \in AnyE)
      THEN /\ Ev.post = Ev.pre /\ UNCHANGED <<pos, typed, tcur, edited, loose>>   \* empty history: nothing to show, nothing fails
      ELSE \* not tracked exactly: only the in-progress text or a stored (possibly edited) entry may appear,
           \* and a search result must match the search text
@@ -116,13 +163,13 @@ TNav ==
                 \* can move without this specification noticing - it is unknown until the typed line is left again
                 /\ tcur' = IF p2 < 0 THEN -1 ELSE tc
           /\ typed' = ty /\ edited' = ed /\ loose' = lo
-  /\ UNCHANGED <<srcs, maxe, failing>>
+  /\ UNCHANGED <<srcs, maxe, failing, names, spos>>
 
 \* an ordinary edit: at position 0 it changes the text being typed
 TEdit == /\ Is("edit")
          /\ typed' = IF pos = 0 THEN Ev.post ELSE typed
          /\ tcur' = IF pos = 0 THEN Len(Ev.post) ELSE tcur
-         /\ UNCHANGED <<srcs, maxe, failing, pos, edited, loose>>
+         /\ UNCHANGED <<srcs, maxe, failing, pos, edited, loose, names, spos>>
 
 \* C08: RecordRule, per source, on the returned line
 Recorded(s, line) ==
@@ -148,9 +195,9 @@ TAccepted ==
   /\ loose' = IF pos < 0 THEN loose \cup {Ev.line}
               ELSE IF pos > 0 /\ pos <= N /\ (N - pos + 1) \in DOMAIN edited THEN loose \cup {edited[N - pos + 1]}   \* earlier form kept as possible
               ELSE loose
-  /\ pos' = 0 /\ typed' = <<>> /\ tcur' = 0 /\ UNCHANGED <<maxe, failing>>
+  /\ pos' = 0 /\ typed' = <<>> /\ tcur' = 0 /\ UNCHANGED <<maxe, failing, names, spos>>
 
-TNext == TCase \/ TSession \/ TNav \/ TEdit \/ TAccepted
+TNext == TCase \/ TSession \/ TNav \/ TEdit \/ TAccepted \/ TSrc \/ TApi
 TraceSpec == TInit /\ [][TNext]_tvars
 Accepted == TLCGet("stats").diameter - 1 = Len(TraceLog)
 =============================================================================
